@@ -10,6 +10,11 @@ from engines import storage as S
 
 PROP = 'C07'
 
+
+def R_UNSER():
+    from simkit.dynclasses import Unserializable
+    return Unserializable(1)
+
 META = {
     'engine': 'storage',
     'level': 'exploration',
@@ -27,7 +32,7 @@ META = {
     'components_stub': ['boto3 / S3 (in-memory bucket with paging)', 'uuid / clock'],
     'budgets': {'quick': {'seconds': 25}, 'thorough': {'seconds': 420}},
     'required_probes': {'thorough': ['cassette_memory', 'cassette_file', 'cassette_s3', 's3_empty_prefix', 'restart', 'unknown_id', 'metadata_only_fetch',
-                                     'shared_subobject', 'odd_key_text', 'concurrent_saves']},
+                                     'shared_subobject', 'odd_key_text', 'concurrent_saves', 'failed_save']},
 }
 
 
@@ -153,7 +158,52 @@ def scenario(run, tape, clock, store, flavour):
     nops = 3 + tape.draw(25)
     run.say('cassette %s flavour %s' % (store.describe(), flavour))
     for n in range(nops):
-        op = tape.weighted([(4, 'save'), (4, 'get'), (2, 'meta'), (2, 'unknown'), (1, 'restart'), (1, 'advance_day')])
+        op = tape.weighted([(4, 'save'), (4, 'get'), (2, 'meta'), (2, 'unknown'), (1, 'restart'), (1, 'advance_day'), (1, 'failed_save')])
+        if op == 'failed_save':
+            # a save that does not happen: the value cannot be serialized, the storage request fails, or (S3) the
+            # recording is sampled out at storage level.  The id was then never saved: fetching it must say so.
+            cat = tape.choice(S.CATEGORIES)
+            how = tape.choice(['unserializable', 'put_fails', 'sampled_out'])
+            r = cas.create_new_recording(cat)
+            r.set_data('k', R_UNSER() if how == 'unserializable' else 1)
+            r.add_metadata({'m': 1})
+            run.probe('failed_save')
+            if how == 'put_fails' and store.kind == 's3':
+                store.world.fail_put = len(store.world.log) + tape.draw(2)
+            if how == 'sampled_out' and store.kind == 's3':
+                cas.sampling_calculator = lambda category, size, recording: 0.0
+            try:
+                cas.save_recording(r)
+                happened = how != 'unserializable' and not (store.kind == 's3' and how in ('put_fails', 'sampled_out'))
+            except Exception:
+                happened = False
+            if store.kind == 's3':
+                store.world.fail_put = None
+                cas.sampling_calculator = None
+            if happened:
+                model[r.id] = (cat, {'k': 1}, {'m': 1})
+                order.append(r.id)
+                continue
+            if store.kind == 's3':
+                objs = store.world.snapshot().get('bkt', {})
+                have = ['tape_recorder_recordings/%s%s/%s' % (cas.key_prefix, part, r.id) in objs for part in ('full', 'metadata')]
+                if all(have):
+                    model[r.id] = (cat, {'k': 1}, {'m': 1})
+                    order.append(r.id)
+                    continue
+                if any(have):
+                    continue        # a save that stopped half-way is C15's subject
+            for fn_name in ('get_recording', 'get_recording_metadata'):
+                try:
+                    got = getattr(cas, fn_name)(r.id)
+                    run.violate('unknown_id_signalled', 'failed-save-id-returned', '%s(%s) of a recording whose save failed (%s) returned %r' % (fn_name, r.id, how, got))
+                except NoSuchRecording:
+                    pass
+                except Exception as ex:
+                    run.violate('unknown_id_signalled', 'failed-save-id-raised:%s' % type(ex).__name__,
+                                '%s(%s) of a recording whose save failed (%s) raised %r instead of NoSuchRecording (%s)' % (fn_name, r.id, how, ex, store.describe()))
+            run.ev('failed_save', how, r.id)
+            continue
         if op == 'save' and len(model) < 12:
             cat = tape.choice(S.CATEGORIES)
             data, metadata = gen_recording(tape, run, flavour)
